@@ -1,5 +1,5 @@
 // Engine `ir`: one definition per line, `<curve> <value-budget|-> <degree-budget|-> <hex source>`.
-// Prints `(ok <cfg dump before SSA> <cfg dump after SSA> (idom ...))`, `(cfgerr)`, `(ssaerr <pre-SSA dump>)`,
+// Prints `(ok <cfg dump before SSA> <cfg dump after SSA> (idom ...) (dominfo ...))`, `(ssaerr <pre> (dominfo ...))`, `(cfgerr)`, `(ssaerr <pre-SSA dump>)`,
 // `(parseerr)` or `(panic <stage>)`.
 use parser::parse_definition;
 use program_structure::cfg::verif::{set_degree_pass_budget, set_value_pass_budget};
@@ -38,10 +38,11 @@ fn run(line: &str) -> String {
         Some(Ok(c)) => c,
     };
     let pre = irdump::cfg(&cfg);
+    let dominfo = irdump::dominfo(&cfg);
     match verif_harness::guarded(|| cfg.into_ssa()) {
         None => format!("(panic ssa {})", pre),
-        Some(Err(_)) => format!("(ssaerr {})", pre),
-        Some(Ok(c)) => format!("(ok {} {} {})", pre, irdump::cfg(&c), irdump::idoms(&c)),
+        Some(Err(_)) => format!("(ssaerr {} {})", pre, dominfo),
+        Some(Ok(c)) => format!("(ok {} {} {} {})", pre, irdump::cfg(&c), irdump::idoms(&c), dominfo),
     }
 }
 
